@@ -233,9 +233,10 @@ pub fn gen_train_case(rng: &mut Rng, lo: u8, hi: u8, class: CorpusClass, with_ta
 fn case_json(tc: &TrainCase) -> J {
     J::obj(vec![
         ("config", J::s(format!("charw={} charn={} typew={} typen={} dictn={} solver={}", tc.cfg.char_w, tc.cfg.char_n, tc.cfg.type_w, tc.cfg.type_n, tc.cfg.bucket, tc.solver))),
-        ("dict", J::strs(&tc.cfg.dict)),
+        ("dict", J::A(tc.cfg.dict.iter().take(12).map(|w| J::s(clip(w, 40))).collect())),
+        ("dict_words", J::i(tc.cfg.dict.len())),
         ("corpus_class", J::s(tc.class)),
-        ("corpus", J::A(tc.corpus.iter().take(12).map(ref_json).collect())),
+        ("corpus", J::A(tc.corpus.iter().take(8).map(ref_json).collect())),
         ("tag_dict", J::A(tc.tag_dict.iter().map(ref_json).collect())),
     ])
 }
